@@ -14,6 +14,7 @@ import KafkaVerif.Lemmas.WriterMsgs
 import KafkaVerif.Lemmas.WriterLogJournal
 import KafkaVerif.Lemmas.WriterProgress
 import KafkaVerif.Lemmas.WriterQuiesce
+import KafkaVerif.Lemmas.WriterCopies
 import KafkaVerif.Lemmas.RecordWriter
 import KafkaVerif.Gen.WriterConsts
 
@@ -440,6 +441,27 @@ theorem sync_call_returns_without_further_input (cfg : Cfg) (hmax : 1 ≤ cfg.ma
     exact ⟨code, by simp [batchDone, hb, hB, hcode]⟩
   obtain ⟨r, hen, hr2⟩ := return_enabled_when_batches_done cfg s' c C hC' hph hsync hdone
   exact ⟨es, s', r, hrun, hint, hen, hr2⟩
+
+/-- **copies_bounded** — bounded duplication: the broker applies at most MaxAttempts attempts of a batch, so each
+message has at most MaxAttempts copies in the log of its partition (`dups_only_after_lost_ack` says when there is
+more than one). -/
+theorem copies_bounded (cfg : Cfg) (hmax : 1 ≤ cfg.maxAttempts) (s : State) (hr : Reachable cfg s) (b : Nat) (B : Batch)
+    (hB : s.batches b = some B) :
+    B.napplied ≤ cfg.maxAttempts ∧
+      ((s.log B.tp).filter (fun e => e.batch == b)).length ≤ cfg.maxAttempts * B.msgs.length := by
+  have h1 := (invCopies cfg hmax s hr).bound b B hB
+  refine ⟨h1, ?_⟩
+  rw [(invJournal cfg s hr).logCount b B hB]
+  exact Nat.mul_le_mul_right _ h1
+
+/-- **no_copy_before_sending** — a batch that is neither completed nor with the sender goroutine of its partition
+(still attached, or waiting in the queue) has no entry in any log yet: nothing reaches the broker except through the
+sender's attempts. -/
+theorem no_copy_before_sending (cfg : Cfg) (hmax : 1 ≤ cfg.maxAttempts) (s : State) (hr : Reachable cfg s) (b : Nat) (B : Batch)
+    (hB : s.batches b = some B) (hd : B.done = none) (hun : ∀ P, s.pws B.pw = some P → P.sender.batch? ≠ some b) :
+    ((s.log B.tp).filter (fun e => e.batch == b)).length = 0 := by
+  rw [(invJournal cfg s hr).logCount b B hB, (invCopies cfg hmax s hr).unheld b B hB hun hd]
+  exact Nat.zero_mul _
 
 /-- **acked_has_journal_entry** — "acknowledged" is the broker's own record: a batch counts as acknowledged exactly
 when the journal holds an applied-and-acknowledged decision for it on its topic-partition. -/
